@@ -259,12 +259,16 @@ class Effects:
                 if c.bb in site_bbs and not (c.dest and c.dest[0] == 0):
                     continue
                 res.append((c, None))
+        # program order: the dominators of a block form a chain, so dominating calls are ordered by depth; the calls
+        # of a loop body take the place of the loop header in that chain (before anything after the loop)
+        key = {id(c): (len(dom.get(c.bb, ())), 0, 0) for c, _ in res}
         for L in self.loops(fn):
             if L.header in common and not any(b in L.body for b in site_bbs):
                 for c in fn.calls:
                     if c.bb in L.body and c.bb != L.header and all(fn.dominates(c.bb, l) or c.bb == l for l in L.latches):
                         res.append((c, L.collection))
-        res.sort(key=lambda x: len(dom.get(x[0].bb, ())))
+                        key[id(c)] = (len(dom.get(L.header, ())), 1, len(dom.get(c.bb, ())))
+        res.sort(key=lambda x: key[id(x[0])])
         return res
 
     def may_calls(self, fn, site_bbs=None):
